@@ -33,8 +33,8 @@ def parseList {α} (f : String → Option α) (s : String) : Option (List α) :=
 /-- proto,tsOk,sid,prefixLen,payloadLen,suffixLen,leMode,leMask,leRot,extLen,bodyLen,payloadAuth,leBodyOk,framed,src,srcIsServer,dgramLen,keyUser,replay,seq
     where seq is a number or `n` = "the sequence number the target session expects next on the stream
     transport" (resolved against the table when the step is executed; `none` here) -/
-def parseStep (s : String) : Option (Md × Env × Bool) :=
-  match s.splitOn "," with
+def parseStep20 (fs : List String) (writeOk quotaOk : Bool) : Option (Md × Env × Bool) :=
+  match fs with
   | [proto, tsOk, sid, pre, pay, suf, mode, mask, rot, ext, blen, auth, leOk, framed, src, srcSrv, dlen, key, replay, seq] =>
     match (if seq == "n" then some (0, true) else seq.toNat?.map fun v => (v, false)) with
     | none => none
@@ -47,21 +47,34 @@ def parseStep (s : String) : Option (Md × Env × Bool) :=
         some ({ proto := proto, tsOk := tsOk, sid := sid, seq := seqv, prefixLen := pre, payloadLen := pay, suffixLen := suf,
                 leMode := mode, leMask := mask, leRot := rot, extractedLen := ext },
               { src := src, srcIsServer := srcSrv, dgramLen := dlen, keyUser := optName key, replay := replay,
+                quotaOk := quotaOk, replyWriteOk := writeOk,
                 body := { len := blen, payloadAuth := auth, leBodyOk := leOk, framed := framed } }, seqNext)
       | _, _, _, _, _, _, _, _ => none
     | _, _, _, _, _, _, _, _, _, _ => none
   | _ => none
 
+/-- 20 fields, or 22: the 20 followed by `replyWriteOk,quotaOk` (0|1 each; both 1 when absent) -/
+def parseStep (s : String) : Option (Md × Env × Bool) :=
+  let fs := s.splitOn ","
+  if fs.length == 22 then
+    match bool? (fs.getD 20 ""), bool? (fs.getD 21 "") with
+    | some w, some q => parseStep20 (fs.take 20) w q
+    | _, _ => none
+  else parseStep20 fs true true
+
 def showTable (t : List Sess) : String :=
   if t.isEmpty then "-" else
   ";".intercalate (t.map fun s => s!"{s.id},{showOpt s.block},{showOpt s.policy},{if s.closed then 1 else 0},{s.streamNext}")
 
-def runUdp (fixed : Bool) (r : Role) : List Sess → List (Md × Env × Bool) → List String → List String × List Sess
+def runUdp (fixed loopFix : Bool) (r : Role) : List Sess → List (Md × Env × Bool) → List String → List String × List Sess
   | t, [], acc => (acc.reverse, t)
   | t, (m, e, _) :: rest, acc =>
-    let s := udpStepWith fixed r t m e
-    let tok := outName s.outcome ++ (if s.reply then "+reply" else "")
-    if s.outcome == .panic then ((tok :: acc).reverse, s.table) else runUdp fixed r s.table rest (tok :: acc)
+    let s := udpLoopStepWith fixed loopFix r t m e
+    let bornClosed := s.outcome == .createSession && (s.table.getLast?.map (·.closed)).getD false
+    let tok := outName s.outcome ++ (if bornClosed then "/closed" else "") ++ (if s.reply then "+reply" else "") ++
+      (if s.replyFailed then "+replyfailed" else "")
+    if s.outcome == .panic || s.outcome == .closeUnderlay then ((tok :: acc).reverse, s.table)
+    else runUdp fixed loopFix r s.table rest (tok :: acc)
 
 def runTcp (r : Role) : TcpSt → List (Md × Env × Bool) → List String → List String × TcpSt
   | st, [], acc => (acc.reverse, st)
@@ -75,20 +88,28 @@ def runTcp (r : Role) : TcpSt → List (Md × Env × Bool) → List String → L
     if s.outcome == .panic || s.outcome == .closeUnderlay then ((tok :: acc).reverse, s.st) else runTcp r s.st rest (tok :: acc)
 
 /-- ops:
-  dispatch-udp <c|s> <fixed 0|1> <sessions> <steps>            → ok <outcome…> | <table>
+  dispatch-udp <c|s> <fixed 0|1 | two digits: owner-check fix, event-loop fix> <sessions> <steps>   → ok <outcome…> | <table>
   dispatch-tcp <c|s> <clientUser|-> <sessions> <steps>         → ok <outcome…> | <recv user> <table>
     sessions: `-` or `id,addr,block,policy;…` (block / policy `-` = not set)
-    steps:    `proto,tsOk,sid,prefixLen,payloadLen,suffixLen,leMode,leMask,leRot,extLen,bodyLen,payloadAuth,leBodyOk,framed,src,srcIsServer,dgramLen,keyUser,replay,seq;…` (seq: number or `n`)
+    steps:    `proto,tsOk,sid,prefixLen,payloadLen,suffixLen,leMode,leMask,leRot,extLen,bodyLen,payloadAuth,leBodyOk,framed,src,srcIsServer,dgramLen,keyUser,replay,seq[,replyWriteOk,quotaOk];…` (seq: number or `n`)
     outcome:  drop | closeSession | closeUnderlay[/ERRTYPE] | deliver | createSession[/closed] | panic, `+reply` when the
-              underlay answers with a closeSessionRequest; the run stops at the first panic / closeUnderlay
+              underlay answers with a closeSessionRequest, `+replyfailed` when it tried to and the write failed;
+              the run stops at the first panic / closeUnderlay
 -/
 def handler : IO Handler := pure fun op args => pure <|
   match op, args with
   | "dispatch-udp", [role, fixed, sess, steps] =>
+    let fixes : Option (Bool × Bool) :=
+      if fixed == "1" then some (true, true) else if fixed == "0" then some (false, true)
+      else match fixed.toList with
+        | [a, b] => match bool? (String.singleton a), bool? (String.singleton b) with
+          | some a, some b => some (a, b)
+          | _, _ => none
+        | _ => none
     match (if role == "c" then some Role.client else if role == "s" then some Role.server else none),
-          bool? fixed, parseList parseSess sess, parseList parseStep steps with
-    | some r, some f, some t, some l =>
-      let (toks, t') := runUdp f r t l []
+          fixes, parseList parseSess sess, parseList parseStep steps with
+    | some r, some (f, lf), some t, some l =>
+      let (toks, t') := runUdp f lf r t l []
       some s!"ok {" ".intercalate toks} | {showTable t'}"
     | _, _, _, _ => some "bad-op"
   | "dispatch-tcp", [role, cu, sess, steps] =>
